@@ -1,6 +1,6 @@
 """C05 translators (tie T), run by vlib.core.regenerate() on every check:
 
-LoginMapGen.v   the login-name mapping prefix of radicale/auth/__init__.py BaseAuth.login
+LoginMapC05Gen.v   the login-name mapping prefix of radicale/auth/__init__.py BaseAuth.login
                 (lc_username / uc_username / strip_domain), translated with py2coq.FnTranslator into a
                 Gallina function over the external str.lower / str.upper (Section variables).  Fails
                 closed unless the rest of the cache-less branch is exactly
@@ -201,7 +201,7 @@ def gen_gate_skel(repo):
 def generate(repo, outdir):
     errors = {}
     os.makedirs(outdir, exist_ok=True)
-    for mod, fn in (("LoginMapGen", gen_login_map), ("GateSkelGen", gen_gate_skel)):
+    for mod, fn in (("LoginMapC05Gen", gen_login_map), ("GateSkelGen", gen_gate_skel)):
         try:
             text = fn(repo)
         except (Unsupported, SyntaxError, OSError) as e:
